@@ -38,14 +38,13 @@ func ruleC05_1(c *Ctx) {
 	instrsOf(ht, func(in ssa.Instruction) {
 		if mu, ok := in.(*ssa.MapUpdate); ok {
 			if s, ok := constStr(mu.Key); ok {
-				have[http.CanonicalHeaderKey(s)] = true
 				have[s] = true
 			}
 		}
 	})
 	var missing []string
 	for _, h := range oracleHop {
-		if !have[h] && !have[http.CanonicalHeaderKey(h)] {
+		if !have[http.CanonicalHeaderKey(h)] {
 			missing = append(missing, h)
 		}
 	}
@@ -62,7 +61,7 @@ func ruleC05_1(c *Ctx) {
 	}
 	// keys must be in canonical form because deletion is by map key
 	for k := range have {
-		if k != http.CanonicalHeaderKey(k) && k != "TE" {
+		if k != http.CanonicalHeaderKey(k) {
 			c.Fail("C05.1", "hop-table-canonical key="+k, "table keys are canonical header names (deletion is by map key)", c.P.ShortName(ht)+": key "+k+" is not canonical; delete(header, key) never matches")
 		}
 	}
